@@ -33,9 +33,11 @@ def main():
     ap.add_argument("--variants", default="a,b")
     ap.add_argument("--workers", default="8")
     ap.add_argument("--seeds", default="1")
+    ap.add_argument("--root", default="/tmp/mut")
+    ap.add_argument("--tag", default="")
     a = ap.parse_args()
     pid = a.id
-    src = f"/tmp/mut/{pid}/_out"
+    src = f"{a.root}/{pid}/_out"
     meta_in = json.load(open(f"{src}/meta.json")) if os.path.exists(f"{src}/meta.json") else {}
     checks = (a.checks or pid).split(",")
     for v in a.variants.split(","):
@@ -78,7 +80,7 @@ def main():
                                           "signatures": sigs[:6], "summary": line[:200]}
                     res["checks"][cid] = per_seed
                 res["detected_by"] = sorted(c for c, ps in res["checks"].items() if any(x["exit"] == 1 for x in ps.values()))
-            out_dir = f"{ROOT}/seeded/{pid}-{v}"
+            out_dir = f"{ROOT}/seeded/{pid}-{v}{a.tag}"
             os.makedirs(out_dir, exist_ok=True)
             shutil.copy(patch, f"{out_dir}/patch.diff")
             if os.path.exists(demo):
@@ -86,7 +88,7 @@ def main():
             res["ran"] = (f"tools/seed_eval.py {pid} --checks {','.join(checks)} --variants {v}: scratch copy of /repo (cohdl/, tests/) "
                           f"+ patch; suite; demo with/without; CV_REPO=<copy> ./check <ID> --tier quick at seeds {a.seeds}")
             json.dump(res, open(f"{out_dir}/meta.json", "w"), indent=1)
-            print(f"{pid}-{v}: applies={res.get('applies_to_current_tree')} suite={res.get('suite_with_change')} "
+            print(f"{pid}-{v}{a.tag}: applies={res.get('applies_to_current_tree')} suite={res.get('suite_with_change')} "
                   f"demo_ok_clean={res['demo_passes_without_change']} demo_fails={res.get('demo_fails_with_change')} "
                   f"detected_by={res.get('detected_by')}")
         finally:
